@@ -155,6 +155,11 @@ void tsProgram(TimerService &svc, const std::string &prog, const std::string &wh
       std::this_thread::sleep_for(milliseconds(400));
       op = 'a';
     }
+    if (op == 'L')
+    {
+      std::this_thread::sleep_for(milliseconds(7000)); // later than a stop() whose internal 5 s drain timed out
+      op = 'a';
+    }
     if (op == 'c' || op == 'C')
     {
       int target = -1;
@@ -185,8 +190,8 @@ void tsProgram(TimerService &svc, const std::string &prog, const std::string &wh
     {
       Tm &t = L->tm[size_t(k)];
       t.callNs = mc_now_ns();
-      t.delayMs = (op == 'a' || op == 'S') ? 20 : op == 'b' ? 21 : 0; // b: deadline 1 ms behind an 'a' timer scheduled at the same instant
-      t.slowMs = op == 'S' ? 30 : 0;
+      t.delayMs = (op == 'a' || op == 'S' || op == 'X') ? 20 : op == 'b' ? 21 : 0; // b: deadline 1 ms behind an 'a' timer scheduled at the same instant
+      t.slowMs = op == 'S' ? 30 : op == 'X' ? 6000 : 0; // X: a handler that outlives stop()'s internal drain(5000)
       if (op == 'P')
         t.intervalMs = 15;
     }
@@ -307,6 +312,7 @@ const TsScn TS[] = {
   {"ts_slow_handler_stop", "Ss", "", 1, 2, 2, 3, 2},
   {"ts_slow_handler_drain", "S", "", 4, 1, 1, 2, 2}, // term 4: drain(200 ms) called while the slow handler runs
   {"ts_late_schedule", "al", "", 1, 1, 1, 2, 1},
+  {"ts_stop_drain_timeout_then_schedule", "XL", "", 1, 1, 1, 2, 1}, // stop()'s drain times out (handler runs 6 s), stop forces the shutdown; a later schedule must be refused
   {"ts_dtor", "az", "", 3, 1, 1, 2, 2},
 };
 
